@@ -19,6 +19,7 @@ import (
 	clientv3 "go.etcd.io/etcd/client/v3"
 	"go.uber.org/zap"
 
+	serverapi "github.com/zilliztech/milvus-cdc/server/api"
 	"github.com/zilliztech/milvus-cdc/server/model/meta"
 )
 
@@ -360,6 +361,11 @@ func VerifC12_ChannelUpdate() {
 	coll := vI64("coll")
 	vAssume(coll > 0)
 	st := c12Stores(kv, root)
+	c12ChannelUpdateOn(st.taskCollectionPositionStore, task, coll)
+}
+
+// c12ChannelUpdateOn: the channel-level obligations on the checkpoint store of either backend.
+func c12ChannelUpdateOn(posStore serverapi.MetaStore[*meta.TaskCollectionPosition], task string, coll int64) {
 	ctx := context.Background()
 	// stored state: two channels with arbitrary times / dropped flags in all three maps
 	chA, chB := "ka", "kb" // letters of the check's string alphabet, so that the symbolic channel of the update can hit them
@@ -377,15 +383,15 @@ func VerifC12_ChannelUpdate() {
 		delete(stored.Positions, chA)
 	}
 	if vBool("freezeFirst") {
-		vAssert(st.taskCollectionPositionStore.Put(ctx, stored, nil) == nil, "C12.seed")
-		vAssert(UpdateDropStateTaskCollectionPosition(st.taskCollectionPositionStore, task, coll) == nil, "C12.drop-state-ok")
+		vAssert(posStore.Put(ctx, stored, nil) == nil, "C12.seed")
+		vAssert(UpdateDropStateTaskCollectionPosition(posStore, task, coll) == nil, "C12.drop-state-ok")
 		for _, m := range []map[string]*meta.PositionInfo{stored.Positions, stored.OpPositions, stored.TargetPositions} {
 			for _, p := range m {
 				p.Dropped = true
 			}
 		}
 	} else {
-		vAssert(st.taskCollectionPositionStore.Put(ctx, stored, nil) == nil, "C12.seed")
+		vAssert(posStore.Put(ctx, stored, nil) == nil, "C12.seed")
 	}
 	// the update addresses a symbolic source channel / target channel
 	pch := vStr("updatedChannel", 3)
@@ -396,9 +402,9 @@ func VerifC12_ChannelUpdate() {
 		nop = np
 	}
 	nt := &meta.PositionInfo{Time: np.Time, DataPair: &commonpb.KeyDataPair{Key: tch, Data: []byte("newT")}}
-	err := UpdateTaskCollectionPosition(st.taskCollectionPositionStore, task, coll, "c", pch, np, nop, nt)
+	err := UpdateTaskCollectionPosition(posStore, task, coll, "c", pch, np, nop, nt)
 	vAssert(err == nil, "C12.update-ok")
-	got, err := st.taskCollectionPositionStore.Get(ctx, &meta.TaskCollectionPosition{TaskID: task, CollectionID: coll}, nil)
+	got, err := posStore.Get(ctx, &meta.TaskCollectionPosition{TaskID: task, CollectionID: coll}, nil)
 	vAssert(err == nil && len(got) == 1, "C12.reread")
 	g := got[0]
 	check := func(after, before map[string]*meta.PositionInfo, addressed string, newVal *meta.PositionInfo, id string) {
